@@ -454,6 +454,15 @@ var c07BugOps = []c07Op{
 	{"elem/label-empty", true, fieldOp("added", `[""]`, 5)},
 	{"elem/label-control-chars", true, fieldOp("added", `["a\u0001"]`, 5)},
 	{"elem/label-number", true, fieldOp("added", `[3]`, 5)},
+	// well-formed label changes that git-bug's own front-ends never write (they de-duplicate): acceptable, but then
+	// the bug must still compile
+	{"elem/label-added-twice-and-removed", false, func(h *history, j, i int, env *c07Env) bool {
+		return fieldOp("added", `["dup","dup"]`, 5)(h, j, i, env) && fieldOp("removed", `["dup"]`, 5)(h, j, i, env)
+	}},
+	{"elem/label-added-twice", false, fieldOp("added", `["twice","twice","other"]`, 5)},
+	{"elem/label-removed-twice", false, func(h *history, j, i int, env *c07Env) bool {
+		return fieldOp("added", `["keep"]`, 5)(h, j, i, env) && fieldOp("removed", `["gone","gone"]`, 5)(h, j, i, env)
+	}},
 	{"elem/label-no-change", true, func(h *history, j, i int, env *c07Env) bool {
 		return fieldOp("added", `[]`, 5)(h, j, i, env) && fieldOp("removed", `[]`, 5)(h, j, i, env)
 	}},
@@ -759,6 +768,18 @@ func safeRead(repo repository.ClockedRepo, id string) (b *bug.Bug, err error, pa
 	b, err = bug.Read(repo, entity.Id(id))
 	if err == nil {
 		err = b.Validate()
+	}
+	if err == nil {
+		// data that is accepted gets compiled by every front-end: that must not crash either, and the labels of
+		// the compiled bug are a set
+		snap := b.Compile()
+		seen := map[string]bool{}
+		for _, l := range snap.Labels {
+			if seen[string(l)] {
+				err = fmt.Errorf("the compiled bug lists label %q twice", l)
+			}
+			seen[string(l)] = true
+		}
 	}
 	return
 }
